@@ -73,6 +73,7 @@ func (c *matcherCompiler) compileIdent(v reflect.Value) Matcher {
 		return c.compileGeneric(v)
 	}
 
+	c.metavars = append(c.metavars, name)
 	return MetavarMatcher{
 		Fset:        c.fset,
 		Name:        name,
@@ -107,6 +108,7 @@ func (m MetavarMatcher) Match(got reflect.Value, d data.Data, r Region) (data.Da
 	return data.WithValue(d, key, metavarData{
 		Matcher:  newMatcherCompiler(m.Fset, nil, r.Pos, r.End).compile(got),
 		Replacer: newReplacerCompiler(m.Fset, nil, r.Pos, r.End).compile(got),
+		capture:  new(int),
 	}), true
 }
 
@@ -115,6 +117,10 @@ type metavarKey string
 type metavarData struct {
 	Matcher
 	Replacer
+
+	// Identifies this capture: two values captured for the same
+	// metavariable on different attempts have different ones.
+	capture *int
 }
 
 func isExpression(t reflect.Type) bool {
